@@ -21,6 +21,10 @@ def MakeCustomaryToBase(a: Any, b: Any, c: Any, d: Any) -> UnaryConversionFunc:
         Returns a callable with the conversion to the base.
     """
 
+    # The coefficients must be floats (some rows of the table are written with integer literals):
+    # with integer coefficients, numpy integer arrays would silently overflow in `b * x`.
+    a, b, c, d = float(a), float(b), float(c), float(d)
+
     def ret(x: Any) -> Any:
         return (a + b * x) / (c + d * x)
 
@@ -46,6 +50,9 @@ def MakeBaseToCustomary(a: Any, b: Any, c: Any, d: Any) -> UnaryConversionFunc:
          Returns a callable with the conversion from the base to a unit (depending on the
          coefficients).
     """
+
+    # See MakeCustomaryToBase: coefficients must be floats.
+    a, b, c, d = float(a), float(b), float(c), float(d)
 
     def ret(y: Any) -> Any:
         return (a - c * y) / (d * y - b)
